@@ -5,6 +5,7 @@ import LoraVerif.Lemmas.MacWFStep
 import LoraVerif.Lemmas.GhostC
 import LoraVerif.Lemmas.RefineC
 import LoraVerif.Lemmas.HistoryCSafe
+import LoraVerif.Lemmas.ChainC
 /-!
 # C08 — MAC command handling is consistent and atomic: the device does what it answers
 
@@ -1686,6 +1687,106 @@ example : (runC lcg (MacState.init (RegionState.init .EU868) 14 0, 1) demoHistor
       (fun r => (macFields (r.2.map (·.out)), r.2.map (fun o => o.heard.length)))
     = some ([[], [0x05, 7, 0x06, 255, 5], [0x05, 7]], [0, 2, 1, 0]) := by decide +kernel
 
+/-! ### … and INDEXED over every extended history (builder M)
+
+`history_effects` for `runC`: the position is one of the ANNOTATED trace of the run (`annotC`: the event
+with the RXC payload limit of the state it starts in), the reference counter is the tracker moved
+across the first `i` annotated events (`ghNextC`: in-procedure acceptances included), and the
+hypothesis is the reference's verdict on event `i` for the uplink the run reports there. -/
+
+/-- **C08 effects over every EXTENDED history.**  Take any extended history (Class C receptions inside
+the receive procedure included), any random stream, and ANY position `i` holding `send` + receive
+procedure.  If, under the counter `last` the reference tracker holds before event `i`, the reference's
+verdict on that procedure (`upRefC`, for the uplink `so` the run reports at `i`) is: Class C
+acceptances only (`pre`, any number, anywhere between TX and the window), then the Class A acceptance of
+`d` — then `Effects` holds between the state `mi` the history reached just before event `i` and the
+state `mi'` just after it: configuration and channel plan of `mi'` are exactly the result of `d`'s command
+streams applied to `mi`'s (every acknowledged request took effect as commanded, every rejected one
+changed nothing), and the queue is the fitting prefix of the answers — the state all later
+transmissions and receive windows are computed from. -/
+theorem historyC_effects {σ} (g : Rng σ) (m : MacState) (rs : σ) (gh : Gh) (hr : GhRel m gh) (evs : List EvC)
+    (hv : ∀ ev ∈ evs, evOkC ev = true) (ms' : MacState × σ) (outs : List OutC) (h : runC g (m, rs) evs = .ok (ms', outs))
+    (i : Nat) (mpc : Nat) (cc : Bool) (data : List Nat) (fport : Nat) (conf : Bool) (fault : Option FaultPos)
+    (c1 : List (RxView × Int)) (rx1 : Option (RxView × Int)) (c2 : List (RxView × Int)) (rx2 : Option (RxView × Int)) (out : OutC)
+    (hi : ((annotC g (m, rs) evs).zip outs)[i]? = some ((mpc, .uplinkC cc data fport conf fault c1 rx1 c2 rx2), out))
+    (last : Option Nat) (hlast : ghostAfterG ghNextC gh (((annotC g (m, rs) evs).zip outs).take i) = some last)
+    (so : SendOut) (resp : Option Response) (dl : Option (Nat × List Nat)) (hout : out.out = .up so resp dl)
+    (pre : List Act) (N : Nat) (d : RxData) (snr : Int) (hpre : OnlyAccC pre)
+    (hacc : (upRefC cc last conf mpc fault c1 rx1 c2 rx2 so).acts = pre ++ [.accA N d snr]) :
+    ∃ mi rsi mi' rsi', ChainC g (m, rs) (((annotC g (m, rs) evs).zip outs).take i) (mi, rsi) ∧
+      ChainC g (mi', rsi') (((annotC g (m, rs) evs).zip outs).drop (i + 1)) ms' ∧ Effects g mi rsi data fport conf d snr mi' := by
+  have hc := runC_chain g (m, rs) ms' evs outs h
+  obtain ⟨⟨mi, rsi⟩, ⟨mi', rsi'⟩, h1, hmp, hstep, h2⟩ := chainC_at g (m, rs) ms' _ i _ out hc hi
+  have hvz : ∀ x ∈ (annotC g (m, rs) evs).zip outs, evOkC x.1.2 = true := fun x hx => hv _ (mem_annot_zip g _ evs outs x hx)
+  have hri := chainC_ghRel g (m, rs) (mi, rsi) _ gh hr (fun x hx => hvz x (List.mem_of_mem_take hx)) h1
+  rw [hlast] at hri
+  obtain ⟨s, hst, rfl, hl⟩ := hri
+  simp only at hmp hstep hst
+  have hve := hvz _ (List.mem_of_getElem? hi)
+  simp only at hve
+  refine ⟨mi, rsi, mi', rsi', h1, h2, stepC_effects g mi mi' rsi rsi' s hst hl cc data fport conf fault c1 rx1 c2 rx2 hve out hstep
+    pre N d snr hpre ?_⟩
+  intro so' m1 rs1 hsend
+  obtain ⟨so2, m2, hsend2, _, _, _, _, hout2, _⟩ :=
+    stepC_uplinkC_joined g mi mi' rsi rsi' s hst hl cc data fport conf fault c1 rx1 c2 rx2 hve out hstep
+  rw [hsend2] at hsend
+  simp only [Except.ok.injEq, Prod.mk.injEq, Option.some.injEq] at hsend
+  obtain ⟨rfl, _, _⟩ := hsend
+  rw [hout2] at hout
+  simp only [Out.up.injEq] at hout
+  obtain ⟨rfl, _, _⟩ := hout
+  rw [← hmp]
+  exact hacc
+
+/-- **C08 effects on the async front-end, for EVERY script, both classes.**  A session of the async
+front-end model that returns is a run of the extended history `abstractSessionC` of its calls, to the
+front-end's final MAC state and generator state, with the front-end's answers call by call (`ObsRel`);
+at every position of it that holds a `send` whose procedure the reference judges "Class C acceptances,
+then the Class A acceptance of `d`", `Effects` holds between the MAC states before and after that call. -/
+theorem asyncC_effects {σ} (g : Rng σ) (cfg : DevCfg) (d : DevRun) (rs : σ) (gh : Gh) (hr : GhRel d.m gh)
+    (ops : List AsyncOp) (hv : ∀ op ∈ ops, op.allView viewOk = true)
+    (obs : List OpObs) (d' : DevRun) (rs' : σ) (h : asyncOps g cfg d rs ops = .ok (obs, d', rs')) :
+    ∃ outs, runC g (d.m, rs) (abstractSessionC cfg ops) = .ok ((d'.m, rs'), outs) ∧ AllRel ObsRel obs outs ∧
+      ∀ (i mpc : Nat) (cc : Bool) (data : List Nat) (fport : Nat) (conf : Bool) (fault : Option FaultPos)
+        (c1 : List (RxView × Int)) (rx1 : Option (RxView × Int)) (c2 : List (RxView × Int)) (rx2 : Option (RxView × Int)) (out : OutC),
+        ((annotC g (d.m, rs) (abstractSessionC cfg ops)).zip outs)[i]? =
+            some ((mpc, .uplinkC cc data fport conf fault c1 rx1 c2 rx2), out) →
+        ∀ (last : Option Nat), ghostAfterG ghNextC gh (((annotC g (d.m, rs) (abstractSessionC cfg ops)).zip outs).take i) = some last →
+        ∀ (so : SendOut) (resp : Option Response) (dl : Option (Nat × List Nat)), out.out = .up so resp dl →
+        ∀ (pre : List Act) (N : Nat) (dd : RxData) (snr : Int), OnlyAccC pre →
+          (upRefC cc last conf mpc fault c1 rx1 c2 rx2 so).acts = pre ++ [.accA N dd snr] →
+          ∃ mi rsi mi' rsi', ChainC g (d.m, rs) (((annotC g (d.m, rs) (abstractSessionC cfg ops)).zip outs).take i) (mi, rsi) ∧
+            ChainC g (mi', rsi') (((annotC g (d.m, rs) (abstractSessionC cfg ops)).zip outs).drop (i + 1)) (d'.m, rs') ∧
+            Effects g mi rsi data fport conf dd snr mi' := by
+  obtain ⟨outs, hrun, hobs⟩ := asyncOps_runC g cfg d rs ops obs d' rs' h
+  refine ⟨outs, hrun, hobs, ?_⟩
+  intro i mpc cc data fport conf fault c1 rx1 c2 rx2 out hi last hlast so resp dl hout pre N dd snr hpre hacc
+  exact historyC_effects g d.m rs gh hr _ (abstractOps_evOkC cfg ops hv) _ outs hrun i mpc cc data fport conf fault c1 rx1 c2 rx2 out hi
+    last hlast so resp dl hout pre N dd snr hpre hacc
+
+/-- the hypotheses of `historyC_effects` at position `i` of an annotated trace, computed: the
+reference's acts for that procedure under the tracker's counter (0 = Class C acceptance, 1 = Class A
+acceptance, 2 = `rx2_complete`, each with its counter) -/
+def effectsHyp (t : List (EvL × OutC)) (gh : Gh) (i : Nat) : Option (List (Nat × Nat)) :=
+  match t[i]?, ghostAfterG ghNextC gh (t.take i) with
+  | some ((mpc, .uplinkC cc _ _ conf fault c1 rx1 c2 rx2), out), some last =>
+    (match out.out with
+     | .up so _ _ =>
+       some ((upRefC cc last conf mpc fault c1 rx1 c2 rx2 so).acts.map
+         (fun a => match a with | .accC N _ => (0, N) | .accA N _ _ => (1, N) | .tmo => (2, 0)))
+     | _ => none)
+  | _, _ => none
+
+/-- non-vacuity of `historyC_effects` on `demoHistoryC`: at position 1 the tracker (started at `none`,
+moved across the `joinAbp`) holds "no downlink yet", and the reference's acts are a Class C acceptance
+(counter 1, heard between TX and RX1) followed by the Class A acceptance of the frame with the commands
+(counter 2); at position 2 the procedure ends by `rx2_complete` after a Class C acceptance — the
+hypothesis fails there, as it must -/
+example : (runC lcg (MacState.init (RegionState.init .EU868) 14 0, 1) demoHistoryC).toOption.map
+      (fun r => (effectsHyp ((annotC lcg (MacState.init (RegionState.init .EU868) 14 0, 1) demoHistoryC).zip r.2) none 1,
+                 effectsHyp ((annotC lcg (MacState.init (RegionState.init .EU868) 14 0, 1) demoHistoryC).zip r.2) none 2))
+    = some (some [(0, 1), (1, 2)], some [(0, 3), (2, 0)]) := by decide +kernel
+
 end C08
 
 #print axioms C08.push_length_le
@@ -1716,3 +1817,5 @@ end C08
 #print axioms C08.historyC_answers
 #print axioms C08.asyncC_answers
 #print axioms C08.stepC_effects
+#print axioms C08.historyC_effects
+#print axioms C08.asyncC_effects
